@@ -68,11 +68,26 @@ def pending_merge_case(rng):
 
 def retained_case(rng):
     """several Output calls of different content (and formats) in one process: bytes handed out earlier must not
-    change (a writer that recycles its buffer breaks byte-identity for a caller who kept the result)"""
+    change (a writer that recycles its buffer breaks byte-identity for a caller who kept the result).  The content GROWS in
+    some cases and SHRINKS in others: a recycled buffer is overwritten in place only when the later text fits into it."""
+    from props.toolscommon import pmap_tree
     steps = []
+    # one format throughout (the same writer, and whatever buffer it keeps, serves every call) or a mix
+    one = rng.choice([None, "json", "yaml", "toml", "json-pretty", "jsonl", "yml"])
+    fmt = lambda: one or rng.choice(["json", "json", "yaml", "toml", "json-pretty", "jsonl"])
+    if rng.random() < 0.5:
+        big = {"big": {"k%02d" % j: "v" * rng.randint(5, 40) for j in range(rng.randint(5, 30))}, "n": 0, "keep": pmap_tree(rng, 2)}
+        steps.append({"merge": {"id": "D0", "parents": [], "data": big}})
+        steps.append({"out": fmt()})
+        for i in range(1, rng.randint(2, 4)):
+            patch = {"big": "$delete", "k": i} if i == 1 else {"k": i + 10, "extra%d" % i: rng.choice([1, "x", True])}
+            steps.append({"merge": {"id": f"L{i}", "parents": ["D0" if i == 1 else f"L{i-1}"], "data": patch}})
+            steps.append({"out": fmt()})
+        return {"steps": steps, "env": gen.ENV}
     for i in range(rng.randint(2, 4)):
-        steps.append({"merge": {"id": f"D{i}", "parents": [], "data": {"svc%d" % i: gen.tree(rng, 2), "n": i}}})
-        steps.append({"out": rng.choice(["json", "json", "yaml", "toml", "json-pretty", "jsonl"])})
+        body = pmap_tree(rng, 2) if one in ("toml", None) else gen.tree(rng, 2)       # null-free: every format can write it
+        steps.append({"merge": {"id": f"D{i}", "parents": [], "data": {"svc%d" % i: body, "n": i}}})
+        steps.append({"out": fmt()})
     return {"steps": steps, "env": gen.ENV}
 
 
@@ -212,11 +227,11 @@ def gen_case(rng):
         return numkey_case(rng)
     if r0 < 0.1:
         return validate_order_case(rng)
-    if r0 < 0.1:
+    if r0 < 0.125:
         return retained_case(rng)
-    if r0 < 0.13:
+    if r0 < 0.145:
         return pending_merge_case(rng)
-    if r0 < 0.15:
+    if r0 < 0.16:
         c = collide_case(rng)
     elif r0 < 0.3:
         c = manykey_case(rng)
